@@ -124,6 +124,8 @@ pub fn execute_join<F: FnMut(HashMapColumnProvider) -> ExecutionResult<Option<Re
 
             let result = execute(column_provider)?;
             extend_option_result_row(&mut result_row, result);
+            #[cfg(feature="verif_hooks")]
+            crate::verif_hooks::point(crate::verif_hooks::Point::JoinRow);
         }
 
         Ok(ExecutionOutput::joined(result_row))
